@@ -78,7 +78,18 @@ def run_case(case: Dict[str, Any], ctx) -> None:
         mods = [layer] + pads
         if case.get("tied") and depth > 1:
             mods = [layer] * depth  # the container applies one layer `depth` times; its depth is still len(container)
+        clones = case["seed"] % 5 == 0 and depth > 1 and not (case.get("tied") and depth > 1)
+        if clones:
+            # the common way to build a deep stack: clones of ONE template block go into the depth container (the depth tag
+            # lands on the copies) ...
+            import copy
+            mods = [copy.deepcopy(layer) for _ in range(depth)]
         holder = uu.DepthSequential(*mods) if case["container"] == "DepthSequential" else uu.DepthModuleList(mods)
+        if clones:
+            # ... and the finished model is copied once more (an EMA copy, a checkpoint round trip) and THAT copy is trained
+            holder = copy.deepcopy(holder)
+            layer = holder[0]
+            ctx.count("form:second-generation-copy-of-a-stack-of-clones")
         if layer.weight.mup_scaling_depth != depth:
             ctx.violation("C12:depth-not-recorded", f"container of {depth} modules recorded depth {layer.weight.mup_scaling_depth}")
             return
